@@ -57,8 +57,8 @@ CHECKS["C15"] = dict(
    text="Exploration: package pairs (A, B = A + one schema-changing edit, protocol names unchanged) - A's reference-encoded binary and NDJSON streams are fed to B's generated readers (Python, C++); B's own streams are fed with corrupted headers (single-bit flips spread over magic, version, schema-length varint and schema text; truncation inside the header; NDJSON header with wrong version, misspelt key, missing schema, non-JSON, edited schema). The reader must fail and the generated NDJSON writer used as sink must have received no value.",
    note=RT_NOTE, ref="DESIGN.md section 3 (C15)")
 CHECKS["C16"] = dict(
-   technique="exhaustive/sampled truncation fuzzing of valid streams with a prefix oracle, C++ under AddressSanitizer and UBSan",
-   text="Exploration: valid reference-encoded streams are cut at every byte position (streams up to 400 bytes past the header) or at positions around every value start, every 64 KiB multiple and 120 generated positions (a third of the cases repeat a stream step's items until the stream spans several 64 KiB reader buffers, another third draws strings of 1-3 buffer lengths and vectors of 9000-25000 elements); each prefix is read by the generated reader (Python; C++ with ASan+UBSan) copying into an NDJSON sink. Binary: every strict prefix must end in an error; NDJSON: an error unless the prefix is itself a complete stream under the documented grammar; values delivered before the error must equal, one by one, the values written at those positions; no crash, sanitizer report or hang.",
+   technique="exhaustive/sampled truncation fuzzing of valid streams with a prefix oracle, C++ under AddressSanitizer (thorough tier: also UBSan)",
+   text="Exploration: valid reference-encoded streams are cut at every byte position (streams up to 400 bytes past the header) or at positions around every value start, every 64 KiB multiple and 120 generated positions (a third of the cases repeat a stream step's items until the stream spans several 64 KiB reader buffers, another third draws strings of 1-3 buffer lengths and vectors of 9000-25000 elements); each prefix is read by the generated reader (Python; C++ with ASan, in the thorough tier ASan+UBSan) copying into an NDJSON sink. Binary: every strict prefix must end in an error; NDJSON: an error unless the prefix is itself a complete stream under the documented grammar; values delivered before the error must equal, one by one, the values written at those positions; no crash, sanitizer report or hang.",
    note=RT_NOTE, ref="DESIGN.md section 3 (C16)")
 CHECKS["C17"] = dict(
    technique="metamorphic property-based testing: the same item sequence under different block partitions, read/write batch sizes and write groupings must read back identically",
@@ -81,8 +81,8 @@ CHECKS["C14"] = dict(
    ref="DESIGN.md section 3 (C14), 7.8")
 CHECKS["C07"] = dict(
    technique="model-based (state-machine) property testing: generated API call sequences checked against a reference step automaton per API",
-   text="Exploration: protocol shapes (1-8 steps, any stream pattern, plus hostile sizes 127-130 / 255-257 steps walked to the far end) x four generated call sequences - C++ writer (write / batch write / end / close), C++ reader (read / batch read with capacity / close, scripted source), Python writer (write / write iterable / close), Python reader (read / iterate n / close) - mostly along the legal path with arbitrary deviations, each ending at its first rejected call. The generated abstract base classes (which own the step state) are driven through stub implementations, C++ compiled, Python executed. Every call the reference automaton accepts must succeed with exactly the scripted data and end-of-stream indication; the first call it rejects must raise. Corners the documents leave open are not judged.",
-   note="trusted: harness/ref/steps.go (four ~50-line automata) and the stub generators; payloads are int32 (the state machine is payload-independent); MATLAB classes are not executed",
+   text="Exploration: protocol shapes (1-8 steps, any stream pattern, plus hostile sizes 127-130 / 255-257 steps walked to the far end) x generated call sequences - C++ writer (write / batch write / end / close), C++ reader (read / batch read with capacity / close, scripted source), Python writer (write / write iterable / close), Python reader (read / iterate n / close), MATLAB writer (write / end / close) and MATLAB reader (read / has / close) - mostly along the legal path with arbitrary deviations, each ending at its first rejected call. The generated abstract base classes (which own the step state) are driven through stub implementations, C++ compiled, Python executed; the MATLAB base classes, whose step checks use a fixed statement vocabulary, are parsed and executed structurally (no MATLAB interpreter exists here). Every call the reference automaton accepts must succeed with exactly the scripted data and end-of-stream indication; the first call it rejects must raise. Corners the documents leave open are not judged.",
+   note="trusted: harness/ref/steps.go (four ~50-line automata) and the stub generators; payloads are int32 (the state machine is payload-independent); the MATLAB leg trusts the ~150-line structural interpreter of harness/ref/matlab_steps.go (a file outside its vocabulary is skipped with a note)",
    ref="DESIGN.md section 3 (C07)")
 CHECKS["C20"] = dict(
    technique="schedule-based property testing of `yardl generate --watch` with an injected delay point (build tag verif) that forces chosen regenerations to outlast later ones; oracle = convergence to the one-shot output",
